@@ -992,7 +992,17 @@ impl Cx<'_> {
                     }
                     _ => {
                         let n = 2 + t.choose(2);
-                        VBody::Tuple((0..n).map(|_| self.gen_field(t, &params, false, &mut flocal, false)).collect())
+                        let mut fs: Vec<Field> = (0..n).map(|_| self.gen_field(t, &params, false, &mut flocal, false)).collect();
+                        // now and then every field of the tuple variant is skipped
+                        if t.pct(self.p.skip) && fs.iter().all(|f| has_default(&f.ty)) {
+                            fs.iter_mut().for_each(|f| {
+                                f.skip = true;
+                                f.inline = false;
+                                f.as_same = false;
+                                f.type_override = None;
+                            });
+                        }
+                        VBody::Tuple(fs)
                     }
                 };
                 // internally tagged newtype variants must hold something that serialises as a map
@@ -1032,6 +1042,16 @@ impl Cx<'_> {
                 let k = 1 + t.choose(nv - 1);
                 for v in variants.iter_mut().skip(nv - k) {
                     v.untagged = true;
+                }
+            }
+            // `#[ts(as = "..")]` on a unit variant of a tagged enum: legal, and without effect on the
+            // binding (the variant has no payload the type could stand for)
+            if repr != Repr::Untagged {
+                let cands: Vec<usize> = (0..self.types.len()).filter(|i| self.types[*i].params.is_empty() && self.types[*i].lifetimes.is_empty() && self.types[*i].consts.is_empty()).collect();
+                for v in variants.iter_mut() {
+                    if matches!(v.body, VBody::Unit) && !v.untagged && !cands.is_empty() && t.pct(self.p.as_attr * 2) {
+                        v.as_type = Some(TyExpr::User(*t.pick(&cands), vec![]));
+                    }
                 }
             }
             // self reference in a non-first variant (not in untagged enums: serde's own untagged
